@@ -33,6 +33,12 @@ def seeded_fn(ctx, rng, n):
             return c11.cz(r * math.cos(th), r * math.sin(th)) if cx else c11.cz(rng.uniform(-2, 2))
         cases.append({"kind": "fn", "cx": cx, "a": a, "ta": fp(1e-10), "xs": [pt() for _ in range(4)],
                       "cst": c11.cz(rng.uniform(-1, 1)), "lo": pt(), "mid": pt(), "hi": pt()})
+        # special abscissae: the origin (where the antiderivative without constant vanishes) and +-1 as a bound / a point
+        if rng.random() < 0.4:
+            sp = lambda: c11.cz(rng.choice([0.0, 0.0, 1.0, -1.0]))
+            for key in rng.sample(["lo", "mid", "hi"], rng.randint(1, 2)):
+                cases[-1][key] = sp()
+            cases[-1]["xs"][0] = sp()
     return cases
 
 
